@@ -388,6 +388,11 @@ def shard(ctx, acc):
     for k in ('lambda_def', 'lambda_call', 'comprehension', 'def_with_default_and_decorator', 'nested_def', 'with', 'try', 'finally'):
       if k in prog['meta']:
         cls.append('context:' + k)
+    # shape classes of the shared generator (frequencies of the escape / def-position / subscript / nested-global / kw-partial families)
+    cls += ['has:' + k for k in prog['meta'] if k.startswith(('escape', 'escaped_fn_name:', 'shape:', 'subscript_target', 'nested_global_decl',
+                                                                'kwpartial', 'module_kwpartial', 'optional_fn', 'local_container',
+                                                                'call_of_enclosing_local_fn', 'call_through:'))]
+    acc.count('programs')
     sample = {'src': case['src'], 'config': config} if nt and len(acc.samples) < acc.MAX_SAMPLES else None
     acc.case(key=common.h8([case['src'], config]), nontrivial=nt, classes=cls, sample=sample, n=1 + info['runs'])
     for bkt, d in fails:
